@@ -997,9 +997,9 @@ impl Property for C10 {
             ColorKind::Gray4 => run_typed::<Gray4>(sc, opts),
             ColorKind::Gray8 => run_typed::<Gray8>(sc, opts),
             ColorKind::Rgb565 => run_typed::<Rgb565>(sc, opts),
+            ColorKind::Rgb888 => run_typed::<Rgb888>(sc, opts),
             ColorKind::C32 => run_typed::<C32>(sc, opts),
             k => unreachable!("{} is only used by C20", k.name()),
-            ColorKind::C32 => run_typed::<C32>(sc, opts),
         }
     }
 }
